@@ -1276,6 +1276,9 @@ def _install_opjump_tracer(code):
             return local
         return None
 
+    # (CPython 3.12 delivers opcode events only to trace functions installed AFTER some frame of the interpreter has asked
+    # for them: without this the first program of every worker process ran this mode without a single observation)
+    sys._getframe().f_trace_opcodes = True
     sys.settrace(tracer)
 
 
